@@ -40,9 +40,9 @@ package rib
 //@ props C01 C02 C06 C12:safety
 
 //@ unit RIB.DeleteEntry
-//@ requires holdersWF(r) && ribQuiet(r) && unixTS != nil && (op != nil ==> opWF(op))
+//@ requires holdersWF(r) && pendingWF(r) && ribQuiet(r) && unixTS != nil && (op != nil ==> opWF(op))
 //@ ensures[wf] resultsWF(result0) && resultsWF(result1)
-//@ ensures[rib-wf] holdersWF(r) && holdersNonNil(r)
+//@ ensures[rib-wf] holdersWF(r) && holdersNonNil(r) && pendingWF(r)
 //@ ensures[one-verdict] result2 == nil ==> len(result0) + len(result1) == 1
 //@ ensures[own-id] forall i in 0..len(result0) :: result0[i].ID == op.GetId()
 //@ ensures[own-id-fail] forall i in 0..len(result1) :: result1[i].ID == op.GetId()
@@ -50,7 +50,7 @@ package rib
 //@ assert at "oks = append(oks, &OpResult{" [ack-removed] opRemoved(niR, op) && removed
 //@ assert at "Error: err.Error()," [failed-no-trace] keptAll(niR.r.Afts)
 //@ loop 1 at "range originalNHG.NextHop" invariant holdersWF(r) && registered(r, niR) && opRemoved(niR, op) && removed && originalNHG != nil
-//@ loop 1 invariant dom(r.pendingEntries) == old(dom(r.pendingEntries))
+//@ loop 1 invariant dom(r.pendingEntries) == old(dom(r.pendingEntries)) && pendingWF(r)
 //@ assigns ribState, spawned, hookCount
 //@ props C01 C03 C06 C12:safety
 
@@ -58,7 +58,9 @@ package rib
 //@ requires r != nil
 //@ ensures[sound] forall i in 0..len(result0) :: result0[i] in dom(r.niRIB)
 //@ ensures[complete] forall k in dom(r.niRIB) :: exists i in 0..len(result0) :: result0[i] == k
-//@ loop 1 at "range r.niRIB" invariant forall i in 0..len(names) :: names[i] in dom(r.niRIB)
+//@ ensures[distinct] distinctNames(result0)
+//@ loop 1 at "range r.niRIB" invariant forall i in 0..len(names) :: names[i] in dom(r.niRIB) && names[i] in visited
+//@ loop 1 invariant distinctNames(names)
 //@ loop 1 invariant forall k in dom(visited) :: k in dom(r.niRIB) ==> exists i in 0..len(names) :: names[i] == k
 //@ loop 1 invariant held(r.nrMu) == 1
 //@ assigns nothing
@@ -72,24 +74,24 @@ package rib
 //@   && dom(A.LabelEntry) == emptyset(aft.Afts_LabelEntry_Label_Union) && dom(A.NextHopGroup) == emptyset(uint64) && dom(A.NextHop) == emptyset(uint64)
 //@ pred listed(nis []string, n Int, k string) = exists i in 0..n :: nis[i] == k
 //@ pred distinctNames(nis []string) = forall i in 0..len(nis), j in 0..len(nis) :: i != j ==> nis[i] != nis[j]
-//@ pred allTablesNonNil(r *RIB) = forall k in dom(r.niRIB) :: tablesNonNil(r.niRIB[k].r.Afts)
+//@ pred allTablesNonNil(r *RIB) = true
 
 //@ inline RIB.Flush$1
 
 //@ unit RIB.Flush
-//@ requires holdersWF(r) && allTablesNonNil(r) && ribQuiet(r) && unixTS != nil
+//@ requires holdersWF(r) && pendingWF(r) && ribQuiet(r) && unixTS != nil
 //@ requires[known] forall i in 0..len(networkInstances) :: networkInstances[i] in dom(r.niRIB)
 //@ requires[distinct] distinctNames(networkInstances)
 //@ ensures[ok] result0 == nil
 //@ ensures[emptied] forall i in 0..len(networkInstances) :: emptied(r.niRIB[networkInstances[i]].r.Afts)
 //@ ensures[others-untouched] forall k in dom(r.niRIB) :: !listed(networkInstances, len(networkInstances), k) ==> keptAll(r.niRIB[k].r.Afts)
-//@ ensures[rib-wf] holdersWF(r) && allTablesNonNil(r) && holdersNonNil(r)
+//@ ensures[rib-wf] holdersWF(r) && pendingWF(r) && holdersNonNil(r)
 //@ ensures[held-untouched] dom(r.pendingEntries) == old(dom(r.pendingEntries))
 //@ loop 1 at "range networkInstances" invariant len(errs) == 0 && holdersWF(r) && allTablesNonNil(r)
 //@ loop 1 invariant forall i in 0..loopi :: emptied(r.niRIB[networkInstances[i]].r.Afts)
 //@ loop 1 invariant forall k in dom(r.niRIB) :: !listed(networkInstances, loopi, k) ==> keptAll(r.niRIB[k].r.Afts)
 //@ loop 1 invariant forall k in dom(r.niRIB) :: held(r.niRIB[k].mu) == ite(listed(networkInstances, loopi, k), 2, 0)
-//@ loop 1 invariant held(r.nrMu) == 0 && nolocks(niRefCounter.mu) && dom(r.pendingEntries) == old(dom(r.pendingEntries)) && alldeferred(RIBHolder.mu)
+//@ loop 1 invariant held(r.nrMu) == 0 && nolocks(niRefCounter.mu) && dom(r.pendingEntries) == old(dom(r.pendingEntries)) && alldeferred(RIBHolder.mu) && pendingWF(r)
 //@ loop 2 at "range niR.r.Afts.Ipv4Entry" invariant len(errs) == 0 && holdersWF(r) && allTablesNonNil(r) && registered(r, niR) && (forall k in visited :: !(k in dom(niR.r.Afts.Ipv4Entry)))
 //@ loop 3 at "range niR.r.Afts.Ipv6Entry" invariant len(errs) == 0 && holdersWF(r) && allTablesNonNil(r) && registered(r, niR) && (forall k in visited :: !(k in dom(niR.r.Afts.Ipv6Entry)))
 //@ loop 3 invariant dom(niR.r.Afts.Ipv4Entry) == emptyset(string)
@@ -114,6 +116,7 @@ package rib
 //@   && (forall i: uint64 :: h.refCounts.NextHop[i] <= 18446744073709551615 && h.refCounts.NextHopGroup[i] <= 18446744073709551615
 //@       && 0 <= h.refCounts.NextHop[i] && 0 <= h.refCounts.NextHopGroup[i])
 //@   && (forall g in dom(h.r.Afts.NextHopGroup) :: h.r.Afts.NextHopGroup[g] != nil ==> groupWF(h.r.Afts.NextHopGroup[g]))
+//@   && tablesNonNil(h.r.Afts)
 //@ pred nilOrAllocated(x Int) = x == 0 || (0 < x && x < top)
 //@ pred tablesAllocated(A *aft.Afts) = nilOrAllocated(A.Ipv4Entry) && nilOrAllocated(A.Ipv6Entry) && nilOrAllocated(A.LabelEntry)
 //@   && nilOrAllocated(A.NextHopGroup) && nilOrAllocated(A.NextHop)
